@@ -156,7 +156,7 @@ func findOp(name string) *opDef {
 func init() {
 	vlib.Register(&vlib.Check{
 		ID: "C38", Engine: "E2",
-		Rule:        "every list of 0..L elements (L=4 quick, 5 thorough) over {\"\", a, b, B, 'a b', 10, 9, é, \"} as a JSON string array on json-typed stdin, and over the same set without \"\" as a str list (one element per line), plus cyclic lists of 8/16/24/40 elements (3 strides x every start offset), is piped through msort, mtac, prepend/append (argument lists injected as variables), match+!match (needles a,1 quick; a,1,b,'a b',\",é,zz thorough), left/right (1,-1 quick; 1,-1,2 thorough) and prefix/suffix (the thorough tier applies the extra argument variants to every list except those of exactly 5 elements); stdout is decoded (JSON array with scalars stringified / lines; an empty stdout is the empty list as murex's own array readers define it) and compared with: sorted permutation in byte order; exact reverse; exact concatenation; match = order-preserving subsequence of the elements containing the needle and !match = its complement; per-element documented map of the same length (left/right count characters as documented). non-trivial = the expected output differs from the input list (for match: both parts non-empty); exit numbers and stderr are not asserted",
+		Rule:        "every list of 0..L elements (L=4 quick — lists of exactly 4 elements only through msort, mtac, prepend, append and match — 5 thorough) over {\"\", a, b, B, 'a b', 10, 9, é, \"} as a JSON string array on json-typed stdin, and over the same set without \"\" as a str list (one element per line), plus cyclic lists of 8/16/24/40 elements (3 strides x every start offset), is piped through msort, mtac, prepend/append (argument lists injected as variables), match+!match (needles a,1 quick; a,1,b,'a b',\",é,zz thorough), left/right (1,-1 quick; 1,-1,2 thorough) and prefix/suffix (the thorough tier applies the extra argument variants to every list except those of exactly 5 elements); stdout is decoded (JSON array with scalars stringified / lines; an empty stdout is the empty list as murex's own array readers define it) and compared with: sorted permutation in byte order; exact reverse; exact concatenation; match = order-preserving subsequence of the elements containing the needle and !match = its complement; per-element documented map of the same length (left/right count characters as documented). non-trivial = the expected output differs from the input list (for match: both parts non-empty); exit numbers and stderr are not asserted",
 		Run:         run,
 		Replay:      replay,
 		Assumptions: []string{"element alphabet and length bounds as stated in rule", "an empty stdout is read as the empty list (lang.ArrayTemplate does the same), so the json writers' 'no data returned' error for an empty result is recorded as an outcome, not asserted"},
@@ -207,6 +207,9 @@ func run(c *vlib.Ctx) {
 		listsFor(c.Quick(), alpha, func(l []string) bool {
 			for oi := range ops {
 				o := &ops[oi]
+				if c.Quick() && len(l) == 4 && oi > 4 {
+					continue // quick tier: lists of exactly 4 elements only through the order-sensitive builtins
+				}
 				vars := o.args
 				if c.Quick() || len(l) == 5 {
 					vars = vars[:o.nq]
